@@ -12,6 +12,7 @@ func init() {
 	verifHarnesses["HarnessC13"] = HarnessC13
 	verifHarnesses["HarnessC13Cap"] = HarnessC13Cap
 	verifHarnesses["HarnessC13Quota"] = HarnessC13Quota
+	verifHarnesses["HarnessC13QuotaLost"] = HarnessC13QuotaLost
 }
 
 // HarnessC13: a = {senders, messages per sender, busy indications, pause in ms, wait time of the
@@ -201,4 +202,62 @@ func HarnessC13Quota(a []int) {
 	}
 	verifAssert("C13.quota.every_busy_taken_in", busySeen == nBusy)
 	verifCover("C13.quota.end")
+}
+
+// HarnessC13QuotaLost: a = {messages M sent beforehand, lost count L, pause in ms, wait in ms}: the
+// goroutine that repeats lost telegrams is a sender like any other: when a busy indication is
+// taken in while it is at work, at most one further repetition goes out before the server
+// goroutine owns the send lock, and then nothing for min(wait, 50 ms). FIFO hand-off of the lock
+// as in HarnessC13Quota; the busy indication meets the repetitions at every point of the interleaving.
+func HarnessC13QuotaLost(a []int) {
+	M, L, pauseMs, waitMs := a[0], a[1], a[2], a[3]
+	verifMutexFIFO()
+	router, in := newRouterEnv(4, time.Duration(pauseMs)*time.Millisecond)
+	for i := 0; i < M; i++ {
+		verifAssert("C13.quotalost.send", router.Send(rmsg(i)) == nil)
+	}
+	verifSleep(int64(time.Second))
+	verifQuiesce()
+	wait := time.Duration(waitMs) * time.Millisecond
+	in <- &knxnet.RoutingLost{Count: uint16(L)}
+	in <- &knxnet.RoutingBusy{WaitTime: wait, Control: 1}
+	verifSleep(int64(10 * time.Second))
+	verifQuiesce()
+	_, stamps := routerSent()
+	resent := L
+	if resent > M {
+		resent = M
+	}
+	verifAssert("C13.quotalost.all_transmitted", len(stamps) == M+resent)
+	silent := int64(wait)
+	if silent > int64(50*time.Millisecond) {
+		silent = int64(50 * time.Millisecond)
+	}
+	// acquisitions M.. : the first is the server goroutine's (serving the lost indication), its next
+	// one is the busy hand-over
+	n := verifLockLogField(router, "sendMu")
+	verifAssert("C13.quotalost.lock_log", n > M)
+	server := verifLockFieldThread(router, "sendMu", M)
+	seen := false
+	for i := M + 1; i < n; i++ {
+		if verifLockFieldThread(router, "sendMu", i) != server {
+			continue
+		}
+		seen = true
+		arrive, owned, T := verifLockFieldArriveSeq(router, "sendMu", i), verifLockFieldSeq(router, "sendMu", i), verifLockFieldTime(router, "sendMu", i)
+		perThread := map[int]int{}
+		for w := 0; w < verifNetWrites(); w++ {
+			ws := verifNetWriteSeq(w)
+			if ws > owned {
+				verifAssert("C13.quotalost.silent_interval", stamps[w] >= T+silent)
+			} else if ws > arrive {
+				verifCover("C13.quotalost.repetition_after_busy")
+				perThread[verifNetWriteThread(w)]++
+				verifAssert("C13.quotalost.one_per_goroutine", perThread[verifNetWriteThread(w)] <= 1)
+			}
+		}
+		break
+	}
+	verifAssert("C13.quotalost.busy_taken_in", seen)
+	verifCover("C13.quotalost.end")
 }
